@@ -36,6 +36,7 @@ type EModel struct {
 	faultCycle   int
 	faultedRules map[string]bool
 
+	retractCalls   []string // names passed to Retract so far in this call
 	pending        string
 	pendingRefused bool
 	actFault       *faultRec
@@ -230,6 +231,9 @@ func (em *EModel) onExec(r *run, name string) {
 		}
 		if len(missing) > 0 {
 			r.violate("C06.missing-eval", fmt.Sprintf("cycle %d fires %s although %v were never reported evaluated", em.cycle, name, missing))
+			if len(em.retractCalls) > 0 {
+				r.violate("C10.retract-affected-other-rule", fmt.Sprintf("after Retract(%v) the rule(s) %v, which were not named, are no longer evaluated (cycle %d)", em.retractCalls, missing, em.cycle))
+			}
 		}
 	}
 	if em.execInCycle >= 1 {
@@ -351,6 +355,7 @@ func (em *EModel) finishFiring(r *run) {
 			writes++
 		}
 		if eff.Retract != "" {
+			em.retractCalls = append(em.retractCalls, eff.Retract)
 			if _, ok := em.rules[eff.Retract]; ok && !em.removed[eff.Retract] {
 				em.retracted[eff.Retract] = true
 				if eff.Retract == name {
@@ -462,6 +467,9 @@ func (em *EModel) onReturn(r *run, err error) {
 	case em.actErrSeen:
 		res.End = "acterr"
 		if err == nil {
+			if em.complete {
+				r.violate("C10.complete-suppressed-error", fmt.Sprintf("rule %s called Complete() and a later action of the same list failed; Execute returned nil: Complete() is documented to stop the run, not to swallow errors", em.actErrRule))
+			}
 			r.violate("C14.action-error-not-reported", fmt.Sprintf("an action of rule %s failed but Execute returned nil", em.actErrRule))
 		} else if !strings.Contains(err.Error(), em.actErrRule) {
 			r.violate("C14.action-error-unnamed", fmt.Sprintf("an action of rule %s failed, the returned error does not name it: %v", em.actErrRule, err))
@@ -545,6 +553,9 @@ func (em *EModel) onReturn(r *run, err error) {
 			}
 			if len(missing) > 0 {
 				r.violate("C06.missing-eval", fmt.Sprintf("final cycle %d never reported %v", em.cycle, missing))
+				if len(em.retractCalls) > 0 {
+					r.violate("C10.retract-affected-other-rule", fmt.Sprintf("after Retract(%v) the rule(s) %v, which were not named, are no longer evaluated (cycle %d)", em.retractCalls, missing, em.cycle))
+				}
 			}
 		}
 		if r.sc.Knobs.Listeners > 0 && em.cycle == 0 {
